@@ -233,12 +233,19 @@ pub fn oracle_c04(scn: &Scenario, t: &Trace, st: &mut ExploreStats) -> Vec<Viola
     if multi {
         st.count("idle_reply_with_several_changed_lines");
     }
-    // prefix property at every point, equality at drain
-    let k = got.len().min(want.len());
-    let prefix_ok = got[..k] == want[..k];
+    // prefix property at every point; at drain every change whose idle reply the client has read
+    // completely must have been delivered (also when the connection died right afterwards)
+    let want_all = want;
+    let want: Vec<String> = t.server.changed.iter().filter(|(_, end)| *end <= t.read_pos).map(|(n, _)| n.clone()).collect();
+    let k = got.len().min(want_all.len());
+    let prefix_ok = got[..k] == want_all[..k];
     let live = t.fault.is_none();
     let equal = got == want;
-    if !prefix_ok || got.len() > want.len() || (live && !equal) {
+    if live && want.len() != want_all.len() {
+        // a healthy run ends with everything delivered and read
+        machinery_error(&format!("C04: a fault-free execution ended with unread idle replies (choices {:?})", t.choice_names()));
+    }
+    if !prefix_ok || got.len() > want_all.len() || !equal {
         // classify
         let sig = if prefix_ok && got.len() > want.len() {
             "C04/event-invented"
@@ -621,6 +628,15 @@ pub fn s5(_tier: Tier) -> Scenario {
     s
 }
 
+pub fn micro_stall(_tier: Tier) -> Scenario {
+    let mut s = Scenario::new("micro-stalled-writes", vec![caller(vec![Op::Raw("cmd A1".into()), Op::Raw("cmd A2".into())])]);
+    s.notify_names = vec!["player"];
+    s.notify_budget = 1;
+    s.split_budget = 0;
+    s.stall_budget = 1;
+    s
+}
+
 pub fn micro_ticks(_tier: Tier) -> Scenario {
     let mut s = Scenario::new("micro-ticks-anywhere", vec![caller(vec![Op::Raw("cmd A1".into()), Op::Raw("cmd A2".into())])]);
     s.notify_names = vec!["player"];
@@ -719,7 +735,7 @@ pub fn find_scenario_any(name: &str) -> Option<Scenario> {
 }
 
 fn find_scenario(name: &str, tier: Tier) -> Option<Scenario> {
-    let mut all = vec![s1(tier), s1p(tier), s2(tier), s3(tier), micro(tier), micro2(tier), s4(tier), micro_fault(tier), s5(tier), micro_ticks(tier)];
+    let mut all = vec![s1(tier), s1p(tier), s2(tier), s3(tier), micro(tier), micro2(tier), s4(tier), micro_fault(tier), s5(tier), micro_ticks(tier), micro_stall(tier)];
     for base in [micro(Tier::Quick), micro2(Tier::Quick)] {
         let mut e = base.clone();
         e.split_menu = SplitMenu::Lines;
@@ -742,7 +758,8 @@ pub fn replay(id: &str, case: &Value) -> i32 {
     let scn = [Tier::Quick, Tier::Thorough].iter().find_map(|t| {
         find_scenario(name, *t).filter(|s| s.to_json() == case["scenario"])
     });
-    let Some(scn) = scn.or_else(|| find_scenario(name, Tier::Thorough)) else {
+    let storm = [Tier::Quick, Tier::Thorough].iter().flat_map(|t| storm_variants(*t)).map(|(v, c, r)| storm_scenario(v, c, r).0).find(|s| s.name == name && s.to_json()["notify_budget"] == case["scenario"]["notify_budget"]);
+    let Some(scn) = scn.or(storm).or_else(|| find_scenario(name, Tier::Thorough)) else {
         println!("replay: unknown scenario {name}");
         return 2;
     };
@@ -772,6 +789,7 @@ pub fn run_c01(tier: Tier) -> i32 {
         Plan { scn: s5(tier), bound: tier.pick(3, 4) },
         Plan { scn: with_dropped_events(s1(tier)), bound: tier.pick(2, 3) },
         Plan { scn: with_short_writes(s1(tier), 3), bound: tier.pick(2, 3) },
+        Plan { scn: micro_stall(tier), bound: tier.pick(4, 5) },
     ];
     let (cov, viol) = run_plans(
         &ctx,
@@ -794,6 +812,9 @@ pub fn run_c04(tier: Tier) -> i32 {
         Plan { scn: s3(tier), bound: tier.pick(4, 5) },
         Plan { scn: s1(tier), bound: tier.pick(4, 5) },
         Plan { scn: s5(tier), bound: tier.pick(3, 4) },
+        // the connection dying right after an idle reply was read must not swallow its events
+        Plan { scn: micro_fault(tier), bound: 99 },
+        Plan { scn: s4(tier), bound: tier.pick(3, 4) },
     ];
     let (cov, viol) = run_plans(
         &ctx,
@@ -803,7 +824,57 @@ pub fn run_c04(tier: Tier) -> i32 {
         "all schedules within the deviation bound; non-trivial = executions in which the server reported at least one change (incl. idle replies with several changed lines)",
         &["executions_with_notifications"],
     );
+    let (mut cov, mut viol) = (cov, viol);
+    // directed deep histories: many changes over many idle cycles while the application does not
+    // poll the event receiver (and a request now and then)
+    let mut storm_runs = Vec::new();
+    for (variant, count, with_requests) in storm_variants(tier) {
+        let (scn, script) = storm_scenario(variant, count, with_requests);
+        let mut chooser = NameChooser { names: script.clone(), cursor: 0 };
+        let t = run_once(&scn, &mut chooser).unwrap_or_else(|e| machinery_error(&format!("storm scenario: {e}")));
+        let mut st = ExploreStats::default();
+        for mut v in oracle_c04(&scn, &t, &mut st) {
+            v.case = t.case_json(&scn);
+            viol.push(v);
+        }
+        cov.evaluations += 1;
+        cov.transitions += t.points.len() as u64;
+        cov.distinct_nontrivial += 1;
+        storm_runs.push(json!({"scenario": scn.name, "changes_reported_by_server": t.server.changed.len(), "events_received_at_the_end": t.events.len(), "steps": t.points.len()}));
+    }
+    cov.set("unpolled_event_storms", Value::Array(storm_runs));
     finish(&ctx, cov, viol)
+}
+
+pub fn storm_variants(tier: Tier) -> Vec<(&'static str, usize, bool)> {
+    vec![("names-in-order", 45usize, false), ("names-reversed", 45, false), ("with-requests", 60, true), ("long", tier.pick(300, 2000), false)]
+}
+
+/// many changes over many idle cycles, the application polls the event receiver only at the end
+pub fn storm_scenario(variant: &str, count: usize, with_requests: bool) -> (Scenario, Vec<String>) {
+    let mut scn = Scenario::new(&format!("C04-storm-unpolled-{variant}"), vec![caller((0..8).map(|i| Op::Raw(format!("cmd S{i}"))).collect())]);
+    let mut names: Vec<&'static str> = crate::mpdref::server::IDLE_NAMES.to_vec();
+    names.push("newthing");
+    if variant == "names-reversed" {
+        names.reverse();
+    }
+    scn.notify_names = names.clone();
+    scn.poll_events_at_end_only = true;
+    scn.max_steps = 4 * count + 100;
+    let mut script: Vec<String> = Vec::new();
+    for k in 0..count {
+        script.push(format!("Notify({})", names[k % names.len()]));
+        if k % 3 == 2 {
+            // let two changes pile up every third round: the next idle reply lists several
+            script.push(format!("Notify({})", names[(k + 5) % names.len()]));
+        }
+        script.push("DeliverAll".into());
+        if with_requests && k % 10 == 9 {
+            script.extend(["Issue(0)".to_string(), "DeliverAll".into(), "DeliverAll".into(), "Tick".into()]);
+        }
+    }
+    scn.notify_budget = script.iter().filter(|x| x.starts_with("Notify")).count();
+    (scn, script)
 }
 
 /// Empirical validation of the eager-server reduction (DESIGN.md section 5): every
@@ -868,6 +939,7 @@ pub fn run_c05(tier: Tier) -> i32 {
         Plan { scn: with_dropped_events(s3(tier)), bound: tier.pick(2, 3) },
         Plan { scn: with_short_writes(s1(tier), 1), bound: tier.pick(2, 3) },
         Plan { scn: with_short_writes(s3(tier), 7), bound: tier.pick(2, 3) },
+        Plan { scn: micro_stall(tier), bound: tier.pick(4, 5) },
     ];
     let (cov, viol) = run_plans(
         &ctx,
